@@ -4,6 +4,8 @@ mod common;
 mod extract;
 mod gramsweep;
 mod pda;
+mod reallayer;
+mod rustrun;
 mod refgram;
 mod replay;
 mod scopes;
@@ -34,6 +36,7 @@ fn main() {
             let outcome = match id.as_str() {
                 "C18" => c18::run(&ctx),
                 "C01" => c0103::run(&ctx, "C01"),
+                "C02" => c0103::run(&ctx, "C02"),
                 "C03" => c0103::run(&ctx, "C03"),
                 "C04" => gramsweep::run_c04(&ctx),
                 "C11" => gramsweep::run_c11(&ctx),
